@@ -110,3 +110,11 @@ def replay(key, failure):
 @enum('key_to_ascending_key', 'all slices with start, stop in [-7,7] U {None}, step in [-4,4]\\{0} U {None}, size 0..6')
 def _e_k2a():
     yield from _e_asc()
+
+
+@enum('Bus._store_reader', '0..5 labels x max_persist in {None,1..6} on a stub Store/ConfigMap recording the config used per label')
+def _e_store_reader():
+    from specs.t2_bus import concrete_inputs
+    for n in range(0, 6):
+        for mp in [None, 1, 2, 3, 4, 5, 6]:
+            yield concrete_inputs(dict(labels=[f'L{i}' for i in range(n)], max_persist=mp))
